@@ -56,13 +56,14 @@ PROFILES = {
                 sift_tiny=True),
     'C08': dict(weights=_w(apply=8, fop=10, drop=14, dup=5, traverse=8,
                            gc=5, reorder=3, finalize=4, arm_final=4,
-                           configure=1, arm=2, quant=2, let=2, dump=1, load=2),
-                flavors=['autoref'], nv=(2, 7), steps=(20, 140), copy_copy=0.1, disk_faults=0.3,
+                           configure=1, arm=2, quant=2, let=2, dump=1, load=2, reject=2, copy=2),
+                flavors=['autoref'], nv=(2, 7), steps=(20, 140), copy_copy=0.1, disk_faults=0.3, m1_rate=0.15,
+                reject_kinds=['ctor_unknown', 'foreign', 'unknown_node', 'formula_syntax', 'copy_missing_var'],
                 line_mode=dict(quick=0.1, thorough=0.15)),
     'C09': dict(weights=_w(apply=12, ite=4, fop=4, quant=5, let=10, cube=3,
                            var=6, find_or_add=2, add_expr=4, drop=5, gc=1,
                            swap=0, reorder=0, pairs=0, configure=1, arm=14,
-                           knobs=1, copy=3, load=1, dump=1, image=5, support=3, count=1, pick=1, to_expr=1, sizes=1),
+                           knobs=1, copy=3, load=3, dump=2, image=5, support=3, count=1, pick=1, to_expr=1, sizes=1),
                 flavors=['raw', 'autoref'], nv=(3, 9), steps=(20, 120),
                 dyn=True, m1_rate=0.1),
     'C10': dict(weights=_w(support=8, count=8, pick=10, apply=8, gc=1, swap=3, reorder=1),
@@ -70,11 +71,11 @@ PROFILES = {
     'C11': dict(weights=_w(copy=16, copy_vars=1, fork=1, apply=8, declare=3, gc=3, swap=5,
                            reorder=1, drop=6),
                 flavors=['raw', 'autoref'], nv=(1, 6), steps=(20, 100),
-                m1_rate=0.4),
+                m1_rate=0.4, copy_memo_run=0.25),
     'C12': dict(weights=_w(dump=10, load=14, manager_roundtrip=2, apply=8,
                            declare=2, gc=2, swap=4, reorder=1, drop=5),
                 flavors=['raw', 'autoref'], nv=(1, 6), steps=(20, 90),
-                m1_rate=0.3, disk_faults=0.5, real_disk=dict(quick=0.03, thorough=0.06)),
+                m1_rate=0.3, disk_faults=0.5, dyn_rate=0.15, real_disk=dict(quick=0.03, thorough=0.06)),
     'C13': dict(weights=_w(image=20, apply=10, pairs=4, swap=3, gc=1, reorder=0),
                 flavors=['raw', 'autoref'], nv=(2, 7), steps=(15, 70)),
     'C14': dict(weights=_w(declare=10, declare_many=3, undeclare=10, apply=8, drop=8, gc=6,
@@ -186,10 +187,14 @@ def _make_cfg(prop, seed, tier='quick', idx=0):
         fault_rate=r.choice([0.15, 0.3, 0.5]),
         reject_kinds=P.get('reject_kinds'), probe_second=P.get('probe_second'),
         copy_copy=bool(P.get('copy_copy')) and r.random() < P['copy_copy'],
+        copy_memo_run=bool(P.get('copy_memo_run')) and r.random() < P['copy_memo_run'],
         sift_tiny=bool(P.get('sift_tiny')), doc_cases=doc_cases,
         line_mode=bool(P.get('line_mode')) and r.random() < P['line_mode'].get(tier, 0.0),
         ctor_perm=(r.randrange(1, 1 << 30) if r.random() < 0.15 else None),
     )
+    if cfg['copy_memo_run']:
+        cfg['flavor'] = 'autoref'       # the generic copier speaks the Function interface
+        cfg['weights']['gc'] = max(cfg['weights']['gc'], 6)
     if prop == 'C09' and r.random() < 0.1:
         # natural triggering at the default constants: no armed threshold,
         # a bigger manager, everything kept
